@@ -45,6 +45,9 @@ THEOREMS = [
     "AiuVerif.C01.prep_stage_conserves",
     "AiuVerif.C01.limit_filter_stage_conserves",
     "AiuVerif.C01.comm_stage_non_members",
+    "AiuVerif.C01.perEvent_pass",
+    "AiuVerif.C01.syntactic_pass_sites",
+    "AiuVerif.C01.syntactic_pass_classes",
 ]
 RULE = ("random rich scenarios (gen/rich.py: 1..4 ranks, chain all-reduce groups, kernels, host slices as X and B/E, ties, "
         "nesting, staggered partial overlaps up to the 5-extra-lane budget, zero/negative durations, 1/16 us device slices, "
